@@ -248,7 +248,7 @@ Definition mstep_core (ms : mshared) (t : mthread) : mshared * mthread :=
       else if claimed ms k then (ms, with_mpc t MRDbgNext)
       else
         (* c.next claimed: this thread will link c and then redo invalidate+refresh *)
-        (set_chk (set_claimed ms k) (negb (pc_is (t_pc (m_redo t)) CIdle)),
+        (set_chk (set_claimed ms k) (negb (pc_is (t_pc (m_redo t)) CIdle && m_isadd t)),
          with_reg (with_redo t (with_pc (m_redo t) IvLoad)) MRLink true (m_head t))
   | MRLink =>
       if onat_eqb (hd_error (ms_list ms)) (m_head t)
@@ -359,7 +359,7 @@ Definition quietb (u : thread) : bool :=
 Definition lens_ok (ms : mshared) (t : mthread) : bool :=
   Nat.eqb (length (m_main t)) (length (ms_ctrs ms)) && Nat.eqb (length (m_nest t)) (length (ms_ctrs ms)).
 Definition rc_ok (ms : mshared) (t : mthread) (r : role) (c : nat) : bool :=
-  Nat.ltb c (length (ms_ctrs ms)) && match r with RRedo => m_isadd t && Nat.eqb c (m_k t) | _ => true end.
+  Nat.ltb c (length (ms_ctrs ms)) && claimed ms c && match r with RRedo => m_isadd t && Nat.eqb c (m_k t) | _ => true end.
 Definition focus_ok (ms : mshared) (t : mthread) : bool :=
   match m_pc t with
   | MRun => rc_ok ms t (m_role t) (m_c t)
